@@ -279,6 +279,40 @@ pub fn run(tier: Tier) -> i32 {
     }
     let a3 = par_for(real.len(), 1, &deadline, |i, acc| record(real[i].clone(), acc, true));
     total.merge(a3);
+    // the convenience constructors: Sorter::new(merge) (all defaults, temp-file chunks) and
+    // Sorter::builder(merge).build()
+    for (which, seq) in [(0u8, vec![4u8, 1, 9, 4, 0, 7]), (1, vec![7u8, 7, 2, 11, 5]), (0, vec![]), (1, vec![0u8])] {
+        let inserts = Inserts::Symbols(seq.clone()).build();
+        let model = model_output(&inserts);
+        let r = crate::common::guarded(|| -> Result<Vec<Entry>, String> {
+            let mut s = if which == 0 { grenad::Sorter::new(crate::sorter_util::Concat) } else { grenad::Sorter::builder(crate::sorter_util::Concat).build() };
+            for (k, v) in &inserts {
+                s.insert(k, v).map_err(|e| e.to_string())?;
+            }
+            let mut it = s.into_stream_merger_iter().map_err(|e| e.to_string())?;
+            let mut out = Vec::new();
+            while let Some((k, v)) = it.next().map_err(|e| e.to_string())? {
+                out.push((k.to_vec(), v.to_vec()));
+                if out.len() > inserts.len() + 8 {
+                    return Err("does not terminate".into());
+                }
+            }
+            Ok(out)
+        });
+        total.evaluations += 1;
+        let verdict = match r {
+            Ok(Ok(out)) => compare_output(&out, &model, false),
+            Ok(Err(e)) | Err(e) => Err(e),
+        };
+        match verdict {
+            Ok(()) => total.hist("ok_default_constructor"),
+            Err(msg) => total.violation(Violation {
+                signature: format!("default-ctor;{which};{seq:?}"),
+                summary: format!("C07: Sorter::{} with inserts {seq:?}: {msg}", if which == 0 { "new" } else { "builder().build()" }),
+                case: json!({"kind": "sorter_default_ctor", "which": which, "seq": seq}),
+            }),
+        }
+    }
 
     // group 3b: sequential sort of larger runs (std's small-slice sorts are insertion sorts, which
     // hide an unstable algorithm): many duplicates per key in one in-memory run, and across spills
@@ -370,6 +404,10 @@ pub fn run(tier: Tier) -> i32 {
 }
 
 pub fn replay(case: &serde_json::Value) -> i32 {
+    if case["kind"] == "sorter_default_ctor" {
+        println!("re-run ./check C07 quick: the default-constructor cases are four fixed runs");
+        return 2;
+    }
     let c: Case = serde_json::from_value(case["case"].clone()).expect("bad replay: case");
     match run_case(&c) {
         Ok(n) => {
